@@ -1,5 +1,5 @@
 """registry — which rules decide which property (and with what configuration)."""
-from rules import codec
+from rules import codec, writer, iterator
 
 RULES = {
     "R-PANIC-VINT": codec.r_panic_vint,
@@ -10,9 +10,44 @@ RULES = {
     "R-DEC-CLASS": codec.r_dec_class,
     "R-VINT-RANGE": codec.r_vint_range,
     "R-DEC-RANGE": codec.r_dec_range,
+    "R-DEST-OWNER": writer.r_dest_owner,
+    "R-FLUSH-GUARD": writer.r_flush_guard,
+    "R-FLUSH-API": writer.r_flush_api,
+    "R-SHARED-MATCHER": writer.r_shared_matcher,
+    "R-SPEC-CONSIST": iterator.r_spec_consist,
+    "R-PANIC-ITER": iterator.r_iter_panic,
+    "R-STALE": iterator.r_stale,
+    "R-READ-NONEMPTY": iterator.r_read_nonempty,
+    "R-EOF-GENUINE": iterator.r_eof_genuine,
+    "R-LIMIT": iterator.r_alloc,
+    "L-ADVANCE": iterator.r_advance,
+    "R-RECOVER": iterator.r_recover,
 }
 
 PROPERTIES = {
+    "C14": {
+        "rules": ["R-RECOVER"],
+        "level": "proof",
+        "explanation": "Abstract interpretation of try_recover() from any object state satisfying the buffer invariant: panic-freedom, "
+                       "monotonicity of the stream offset (the distance subtraction cannot underflow) and the set of error variants it can "
+                       "return.  Where recovery resumes (first sentence of the property) is behavioural and not decided.",
+    },
+    "C05": {
+        "rules": ["R-PANIC-ITER", "R-SPEC-CONSIST", "R-PANIC-PAYLOAD", "L-ADVANCE"],
+        "level": "proof",
+        "explanation": "Abstract interpretation of next() and try_recover() from any object state satisfying the (inductively proved) buffer "
+                       "invariant: every compiler-inserted assert, std precondition and explicit panic reachable from the public API is discharged "
+                       "(or assumed under a named assumption / listed as reviewed); I/O errors propagate; each accepted header consumes 2..16 bytes. "
+                       "Termination, the linear bound and fusedness as such are not decided.",
+    },
+    "C10": {
+        "rules": ["R-DEST-OWNER", "R-FLUSH-GUARD", "R-FLUSH-API"],
+        "level": "other",
+        "explanation": "Structural rules over the resolved MIR of tag_writer.rs: ownership of the destination and of buffer shrinking (who-may-access), "
+                       "the flush guard (edge dominance of private_flush by the false edge of the any(Known) scan, predicate evaluated abstractly), "
+                       "flush completeness (full drain, write_all, result returned) and close-then-deliver for flush()/into_inner().  These are the "
+                       "mechanisms the streaming guarantee rests on; 'what the destination holds parses to the tags written so far' is not decided.",
+    },
     "C15": {
         "rules": ["R-PANIC-VINT", "R-VINT-DECODE", "R-VINT-ENCODE", "R-ISVINT", "R-VINT-RANGE"],
         "level": "proof",
